@@ -69,6 +69,15 @@ def catalogue():
     c = _copy(base); c["optimizer"] = {"method": "differential_evolution", "max_functions": 8, "parallel": True,
                                        "options": {"seed": 5, "popsize": 2}}
     out.append(c)
+    # neighbours in the catalogue run as "another optimization" between two target runs: a method with its default
+    # options next to the same method with explicit options
+    for method, opts in (("uniform", {"loc": -0.25, "scale": 0.5}), ("truncnorm", {"a": -0.5, "b": 0.5}), ("norm", {"scale": 2.0})):
+        c = _copy(base); c["samplers"] = [{"method": method}]
+        out.append(c)
+        c = _copy(base); c["samplers"] = [{"method": method, "options": opts}]
+        out.append(c)
+        c = _copy(base); c["samplers"] = [{"method": method}]
+        out.append(c)
     return out
 
 
